@@ -93,11 +93,13 @@ def run(chk):
 
 def bigger(chk):
     rng = random.Random(chk.seed)
-    ncase = 10 if chk.tier == 'quick' else 60
+    ncase = 12 if chk.tier == 'quick' else 60
     cases, autos = [], []
     for i in range(ncase):
-        mode = i % 5
-        if mode == 0:
+        mode = i % 6
+        if mode == 5:
+            classes, auto = [4, 7, 0, 9], False                # same length, first and last class as mode 1 - another set (objects of one process share nothing)
+        elif mode == 0:
             classes, auto = list(range(12)), False             # > 9 classes: kernel 1 regime
         elif mode == 1:
             classes, auto = [4, 300, 0, 9], False              # gaps, value above 255, unordered
